@@ -1,3 +1,4 @@
+import re
 from decimal import Decimal
 from typing import Union
 
@@ -21,6 +22,17 @@ def default_to_str(val: Union[Expression, str, int, float]) -> str:
         return text if '.' in text else text + '.0'
     else:  # int or float or bool
         return str(val)
+
+
+def type_to_dbml(type_: str) -> str:
+    '''Quote the type name when it is not a plain (optionally schema-qualified) word; args and [] stay outside.'''
+    match = re.fullmatch(r'(.*?)(\(.*\)|\[\])?', type_, re.DOTALL)
+    if match is None:  # pragma: no cover
+        return type_
+    base, rest = match.group(1), match.group(2) or ''
+    if all(re.fullmatch(r'[A-Za-z0-9_]+', part) for part in base.split('.')):
+        return type_
+    return f'"{base}"{rest}'
 
 
 def render_options(model: Column) -> str:
@@ -54,7 +66,7 @@ def render_column(model: Column) -> str:
     if isinstance(model.type, Enum):
         result += get_full_name_for_sql(model.type)
     else:
-        result += model.type
+        result += type_to_dbml(model.type)
 
     result += render_options(model)
     return result
